@@ -287,7 +287,7 @@ def plusDefaults (ct : ClassTable) : Spec → V → V → Bool
        !pureKeys es ||
        (listAll2 (fun kv kv' => valEq kv'.1 kv.1 && plusVal ct es kv.2 kv'.2) items (res.take items.length) &&
         (match defaultsRef t (dictDefaults es) (res.take items.length) with
-         | .ok res' => listAll2 (fun a b => valEq a.1 b.1 && valEq a.2 b.2) res' res
+         | .ok res' => valEq (.dict res') (.dict res)     -- (the added defaults come in set order)
          | .error _ => false))
      | _, _ => false)
   | p, t, r => !pureP p || valEq r t
